@@ -551,6 +551,7 @@ func rulesC14(c *Ctx) {
 	ruleEntityBucketDescent(c, "C14.ENTITYBUCKET")
 	ruleBucketMemoInvalidated(c, "C14.BUCKETMEMO")
 	ruleReadIndexNoCreate(c, "C14.READNOCREATE")
+	ruleNoTxStateInStores(c, "C14.NOTXSTATE")
 	ruleCursorValidity(c, "C14.VALIDNIL", "C14.VALIDSRC", "boltz", "ast")
 	ruleC14Wrap(c)
 }
